@@ -8,6 +8,7 @@ only = set(sys.argv[1:])
 for meta in sorted(glob.glob('seeded/*/*/meta.json')):
     _, pid, x, _ = meta.split('/')
     if only and pid not in only: continue
+    if os.environ.get('SEEDED_ONLY_VARIANT') and x not in os.environ['SEEDED_ONLY_VARIANT'].split(','): continue
     patch = f'/verif/seeded/{pid}/{x}/patch.diff'
     props = [pid] + json.load(open(meta)).get('also_check', [])
     out = subprocess.run(['tools/mut.sh', patch] + props, capture_output=True).stdout.decode('utf-8', 'replace')
@@ -21,7 +22,8 @@ for meta in sorted(glob.glob('seeded/*/*/meta.json')):
             entry[parts[0]] = {'exit': int(parts[1][5:]), 'rules': rules}
     res[f'{pid}/{x}'] = entry
     print(pid, x, entry, flush=True)
+outp = os.environ.get('SEEDED_OUT', 'seeded/results.json')
 old = {}
-if os.path.exists('seeded/results.json'): old = json.load(open('seeded/results.json'))
+if os.path.exists(outp): old = json.load(open(outp))
 old.update(res)
-json.dump(old, open('seeded/results.json', 'w'), indent=1, sort_keys=True)
+json.dump(old, open(outp, 'w'), indent=1, sort_keys=True)
